@@ -4,6 +4,7 @@ use crate::state::{with, Fault, FreedBlock, LiveBlock, N_PROBES};
 
 /// `alloc::allocate` returned `ptr` for `bytes` bytes of `ty`.
 pub fn on_alloc(ptr: usize, bytes: usize, align: usize, ty: &'static str) {
+    let _g = crate::galloc::NoAttr::new();
     with(|rt| {
         if !rt.active.get() {
             return;
@@ -33,6 +34,7 @@ pub fn on_alloc(ptr: usize, bytes: usize, align: usize, ty: &'static str) {
 /// `alloc::deallocate` is about to free `ptr`. Returns true when the harness keeps the
 /// memory (quarantine mode): the caller must then not free it.
 pub fn on_dealloc(ptr: usize, bytes: usize, _align: usize, ty: &'static str) -> bool {
+    let _g = crate::galloc::NoAttr::new();
     with(|rt| {
         if !rt.active.get() {
             return false;
@@ -104,6 +106,7 @@ pub fn on_dealloc(ptr: usize, bytes: usize, _align: usize, ty: &'static str) -> 
 /// About to dereference a raw pointer to queue bookkeeping that is read non-atomically.
 #[inline]
 pub fn touch(ptr: usize, what: &'static str) {
+    let _g = crate::galloc::NoAttr::new();
     with(|rt| {
         if rt.active.get() && rt.quarantine.get() {
             rt.check_addr(ptr, what);
